@@ -63,7 +63,7 @@ type Contract struct {
 	File          *ast.File
 	Params        []string // for externs/functypes without resolvable decl: optional names
 	Observes      []*Observe
-	NoSafety      bool // `safety off`: no-panic obligations are not generated for this function (partial correctness)
+	NoSafety      bool          // `safety off`: no-panic obligations are not generated for this function (partial correctness)
 	Overwrites    []string      // parameters (pointers to structs) every field of which is assigned on every path to a return
 	Pairs         string        // the load-time checker whose acceptance establishes the `checked` clauses
 	Checked       []*Clause     // facts established at load time by the paired checker (assumed at entry, proved as lemmas from the checker's postconditions)
